@@ -480,7 +480,18 @@ func (e *SpecEnv) call(x *SCall) Value {
 				}
 			}
 			if e.oldLookup != nil {
-				c.lookup = e.oldLookup
+				// parameters denote their entry values; other locals (loop
+				// indices, range expressions) keep their current values
+				ol, cur := e.oldLookup, e.lookup
+				c.lookup = func(name string) (Value, bool) {
+					if v, ok := ol(name); ok {
+						return v, true
+					}
+					if cur != nil {
+						return cur(name)
+					}
+					return Value{}, false
+				}
 			}
 			return c.eval(x.Args[0])
 		case "now":
@@ -516,6 +527,24 @@ func (e *SpecEnv) call(x *SCall) Value {
 				ref = e.vc.slRef(v.T)
 			}
 			return Value{T: tAnd(app("Bool", "<=", mathInt(0), ref), app("Bool", "<", ref, e.st.alloc)), Ty: types.Typ[types.Bool]}
+		case "lo", "hi":
+			v := e.eval(x.Args[0])
+			if v.T.Sort != "Slice" {
+				e.fail("%s needs a slice", id.Name)
+			}
+			if id.Name == "lo" {
+				return Value{T: e.vc.slOff(v.T), Ty: types.Typ[types.Int]}
+			}
+			return Value{T: e.vc.iadd(e.vc.slOff(v.T), e.vc.slLen(v.T)), Ty: types.Typ[types.Int]}
+		case "at":
+			// at(s, a): element at absolute position a of the backing array of s
+			v := e.eval(x.Args[0])
+			sl, ok := v.Ty.Underlying().(*types.Slice)
+			if !ok {
+				e.fail("at needs a slice")
+			}
+			a := e.toIdx(e.eval(x.Args[1]))
+			return Value{T: tSelect(e.vc.sliceArray(e.st, v.T, sl.Elem()), a), Ty: sl.Elem()}
 		case "zeroOf":
 			v := e.eval(x.Args[0])
 			return Value{T: e.vc.zero(v.Ty), Ty: v.Ty}
